@@ -10,6 +10,7 @@
  *   cmpsd <int64 decimal> <hex16>   compare_int64_double called directly
  *   cmpud <uint64 decimal> <hex16>  compare_uint64_double called directly
  *   imm <op> <operand> <int>        compiled `(fn [x] (<op> x <int>))`  (immediate opcodes, janet_mcall path)
+ *   link?                           -> link:1 if &janet_s64_type < &janet_u64_type else link:0 (primitive order s64 vs u64)
  * operand = n:<hex16 bits of the double> | s:<int64 decimal> | u:<uint64 decimal> | t:<text without blanks>
  * result  = n:<hex16> | n:nan | s:<dec> | u:<dec> | b:0 | b:1 | nil | err:<class>
  */
@@ -164,6 +165,13 @@ int main(void) {
         char *tok[MAXTOK]; int nt = 0;
         for (char *p = strtok(line, " "); p && nt < MAXTOK; p = strtok(NULL, " ")) tok[nt++] = p;
         if (nt == 0) { printf("bad-op\n"); continue; }
+        if (!strcmp(tok[0], "link?")) {
+            /* janet_compare_abstract orders abstracts of different types by the address of the type descriptor */
+            const JanetAbstractType *volatile ts = &janet_s64_type;
+            const JanetAbstractType *volatile tu = &janet_u64_type;
+            printf("link:%d\n", ((uintptr_t) ts < (uintptr_t) tu) ? 1 : 0);
+            continue;
+        }
         if (!strcmp(tok[0], "cmpsd") && nt == 3) {
             int64_t x = (int64_t) strtoll(tok[1], NULL, 10);
             uint64_t bits = strtoull(tok[2], NULL, 16); double y; memcpy(&y, &bits, 8);
